@@ -206,6 +206,7 @@ func checkC05(r *evid.Run) {
 	}
 	concs := tok.Concs(r.Seed, nconc, allChunkIDs)
 	concs = append(concs, tok.InvalidUTF8Conc(int(r.Seed)+1, allChunkIDs))
+	concs = append(concs, tok.HashTwinConc(int(r.Seed)+3, allChunkIDs)) // sibling names that collide under 32-bit hashes
 	runDocModel(r, modelRun{Module: "MC_C05", Cfg: cfg, Timeout: timeout}, func(d *DocState) {
 		if d.Verdict != "accept" || len(d.Forest) == 0 {
 			return
